@@ -51,3 +51,46 @@ Proof.
   repeat split; try reflexivity.
 Qed.
 Print Assumptions C18_constants_are_the_codes.
+
+(* ---- the Go arithmetic this property rests on, AS TRANSLATED FROM THE CURRENT SOURCES by tools/gotrans
+   (gen/Funcs.v, operators in GoSem.v), equals the model's, for all values of the Go types ---- *)
+From Coq Require Import ZArith NArith Bool.
+From Pogreb Require Import Base Record Index GoSem FuncsIndexCheck FuncsRecordCheck FuncsLogCheck FuncsFSCheck.
+From Pogreb.gen Require Funcs Consts.
+Import Funcs.
+Open Scope Z_scope.
+
+Theorem C18_go_encodedRecordSize :
+  forall n : N, (n + 10 < 2 ^ 32)%N -> go_encodedRecordSize (Z.of_N n) = Z.of_N (rec_overhead + n).
+Proof. exact encodedRecordSize_ok. Qed.
+Print Assumptions C18_go_encodedRecordSize.
+
+Theorem C18_go_encode_sizes :
+  forall r : rec, (nlen (rk r) <= max_key_len)%N -> (nlen (rv r) <= max_val_len)%N ->
+  go_encode_sizes (Z.of_N (nlen (rk r))) (Z.of_N (nlen (rv r))) (if rdel r then 1 else 0) = (Z.of_N (rsize r), Z.of_N (vfield r)).
+Proof. exact encode_sizes_ok. Qed.
+Print Assumptions C18_go_encode_sizes.
+
+Theorem C18_go_bucketOffset :
+  forall i : N, (i < 2 ^ 32)%N -> go_bucketOffset (Z.of_N i) = Z.of_N (512 + 512 * i).
+Proof. exact bucketOffset_ok. Qed.
+Print Assumptions C18_go_bucketOffset.
+
+(* ---- the index files as byte strings (Phys.v): main.pix / overflow.pix are the 512-byte header
+   followed by 512-byte buckets, and the block at a bucket's offset unmarshals to that bucket *)
+From Pogreb Require Import Phys PhysProofs.
+Theorem C18_index_file_lengths : forall p, PhysInv p ->
+  nlen (ph_main_bytes p) = (512 * (1 + nlen (ph_main p)))%N /\
+  nlen (ph_over_bytes p) = (512 * (1 + nlen (ph_over p)))%N.
+Proof. exact ph_bytes_lengths. Qed.
+Print Assumptions C18_index_file_lengths.
+
+Theorem C18_main_bucket_round_trip : forall p i b, phys_wf p -> pb_read (ph_main p) (bucket_off i) = Some b ->
+  unmarshal_bucket (ntake 512 (ndrop (bucket_off i) (ph_main_bytes p))) = (pb_slots b, pb_next b).
+Proof. exact ph_main_bytes_decode. Qed.
+Print Assumptions C18_main_bucket_round_trip.
+
+Theorem C18_overflow_bucket_round_trip : forall p off b, phys_wf p -> pb_read (ph_over p) off = Some b ->
+  unmarshal_bucket (ntake 512 (ndrop off (ph_over_bytes p))) = (pb_slots b, pb_next b).
+Proof. exact ph_over_bytes_decode. Qed.
+Print Assumptions C18_overflow_bucket_round_trip.
